@@ -3823,3 +3823,46 @@ def scale_reaches(r: R, chk, quals: List[str], rule="SCALE-REACHES", floor: int 
                    func=q, construct="return bypasses the division by the interval length")
     chk.floor(rule, "returns of derivative helpers that divide by a knot difference", n, floor)
     return n
+
+
+# ---------------------------------------------------------------------------------------------------------
+# DTYPE-AGREE: what is accumulated in place into an array of a chosen number type is built with that number type
+def dtype_agree(r: R, chk, qual: str = "heavy.LeastSquare.func2func", rule="DTYPE-AGREE"):
+    """`X = np.zeros(shape, dtype=T)` ... `X += a * f(...)`: numpy refuses an in-place update whose result has to be cast from
+    object to float64.  The tables of nodes / weights are tuples that may hold Fractions also on the float path (the small
+    Chebyshev tables), so every array built from such a table that is a factor of the accumulated expression carries `dtype=T` —
+    as the sampled basis values already do."""
+    fi = r.prog.func(qual)
+    fn = fi.node
+    targets = {}
+    for a in ast.walk(fn):
+        if isinstance(a, ast.Assign) and len(a.targets) == 1 and isinstance(a.targets[0], ast.Name) and isinstance(a.value, ast.Call) and seg(a.value.func) in ("np.zeros", "np.empty", "np.ones"):
+            dt = next((k.value for k in a.value.keywords if k.arg == "dtype"), None)
+            if dt is not None and isinstance(dt, ast.Name):
+                targets[a.targets[0].id] = dt.id
+    arrays = {}
+    for a in ast.walk(fn):
+        if isinstance(a, ast.Assign) and len(a.targets) == 1 and isinstance(a.targets[0], ast.Name) and isinstance(a.value, ast.Call) and seg(a.value.func) in ("np.array", "np.asarray"):
+            dt = next((k.value for k in a.value.keywords if k.arg == "dtype"), None)
+            arrays.setdefault(a.targets[0].id, []).append((a, seg(dt) if dt is not None else None))
+    n = 0
+    for a in ast.walk(fn):
+        if not (isinstance(a, ast.AugAssign) and isinstance(a.target, ast.Name) and a.target.id in targets):
+            continue
+        want = targets[a.target.id]
+        # names the accumulated expression is made of, through the loop variables that walk an array (`for k, w in enumerate(W)`)
+        used = {x.id for x in ast.walk(a.value) if isinstance(x, ast.Name)}
+        for lp in ast.walk(fn):
+            if isinstance(lp, ast.For) and any(x is a for x in ast.walk(lp)):
+                tnames = {x.id for x in ast.walk(lp.target) if isinstance(x, ast.Name)}
+                if tnames & used:
+                    used |= {x.id for x in ast.walk(lp.iter) if isinstance(x, ast.Name)}
+        for nm in sorted(used & set(arrays)):
+            for st, dt in arrays[nm]:
+                n += 1
+                ok = dt == want
+                chk.ob(rule, f"{qual}: `{seg(st, 40)}`, a factor of `{a.target.id} += …`, is built with dtype={want}", ok, loc=f"{fi.module}.py:{st.lineno}",
+                       detail="" if ok else f"{qual}: `{seg(st, 50)}` has no `dtype={want}` although it is a factor of the in-place update `{seg(a, 50)}` of an array created with dtype={want}: the table may hold Fractions on the float path (Chebyshev weights for 3 nodes or fewer), the product is an object array and numpy refuses to cast it into the float64 accumulator (UFuncTypeError) — knot_remove / degree_decrease of a float curve of degree 0 raise instead of succeeding or refusing with ValueError",
+                       func=qual, construct=f"factor {nm} without the accumulator's dtype")
+    chk.floor(rule, f"arrays that are factors of an in-place accumulation in {qual}", n, 3)
+    return n
